@@ -527,7 +527,7 @@ func check(s *simrt.Sim, ops []op, evs []evict, isTTL bool, ttl time.Duration, c
 func TestC10(t *testing.T) {
 	hx.Main(t, hx.Prop{
 		ID:              "C10",
-		Rule:            "each run draws the cache kind (TTL/LRU), 2-4 client tasks, 1-3 keys, ttl 1-5s, capacity 1-3 and up to 12 operations per client among Add(unique value)/Get/Remove/release(evict or not, repeated)/idle; timers fire on the simulated clock; every lock acquisition and timer callback is a scheduler decision. The operations are linearised by their first acquisition of the cache lock and replayed against a reference map with holder counts. non-trivial = a key was re-added while an older value of it was still held, or a value left the cache (expiry, removal, capacity, evicting release) while held; distinct = schedule hash x configuration. One run in eight instead drives a user of the LRU cache, the descriptor cache of the directory chunk cache (cache/cache.go): 2-3 clients open, read and close readers of 2-4 keys (Direct or not) against MaxCacheFds 1-2 with the garbage collector off; once every reader is closed at most MaxCacheFds files of the cache directory may be open (an evicted *os.File whose Close callback never ran is a leak)",
+		Rule:            "each run draws the cache kind (TTL/LRU), 2-4 client tasks, 1-3 keys, ttl 1-5s, capacity 1-3 and up to 12 operations per client among Add(unique value)/Get/Remove/release(evict or not, repeated)/idle; timers fire on the simulated clock; every lock acquisition and timer callback is a scheduler decision. The operations are linearised by their first acquisition of the cache lock and replayed against a reference map with holder counts. non-trivial = a key was re-added while an older value of it was still held, or a value left the cache (expiry, removal, capacity, evicting release) while held; distinct = schedule hash x configuration. One run in eight instead drives a user of the LRU cache, the descriptor cache of the directory chunk cache (cache/cache.go): 2-3 clients open, read and close readers of 2-4 keys (Direct or not) against MaxCacheFds 1-2 with the garbage collector off; once every reader is closed at most MaxCacheFds files of the cache directory may be open (an evicted *os.File whose Close callback never ran is a leak) An operation that takes no lock at all has no scheduling point inside and is linearised where it was invoked.",
 		Run:             run,
 		HangIsViolation: true,
 		Components:      map[string]string{"cacheutil.TTLCache": "real (instrumented copy)", "cacheutil.LRUCache": "real (instrumented copy)", "groupcache/lru": "real", "clock/timers": "simulated (testing/synctest), real time.AfterFunc path", "clients": "harness tasks"},
